@@ -33,6 +33,8 @@ type Job struct {
 	FileOut     string  `json:"file_out"`
 	DumpRuns    string  `json:"dump_runs"` // selftest: one line per run with its hashes
 	Known       []Known `json:"known"`     // open known findings: counted, not reported as failures
+	Current     string  `json:"current"`   // file that always holds the run in progress (for hang reports)
+	WatchdogS   int     `json:"watchdog_s"`
 }
 
 // Known is an open known finding handed to the worker by the driver.
@@ -68,6 +70,8 @@ var activeRun struct {
 	desc string
 }
 
+var watchdogLimit = 60
+
 func TestMain(m *testing.M) {
 	// create the os/signal loop goroutine outside of any bubble
 	c := make(chan os.Signal, 1)
@@ -86,10 +90,10 @@ func TestMain(m *testing.M) {
 				continue
 			}
 			idle++
-			if idle >= 60 {
+			if idle >= watchdogLimit {
 				buf := make([]byte, 1<<20)
 				n := runtime.Stack(buf, true)
-				fmt.Fprintf(os.Stderr, "WATCHDOG: no scheduler progress for 60s in %s\n%s\n", activeRun.desc, buf[:n])
+				fmt.Fprintf(os.Stderr, "WATCHDOG: no scheduler progress for %ds in %s\n%s\n", watchdogLimit, activeRun.desc, buf[:n])
 				os.Exit(3)
 			}
 		}
@@ -143,6 +147,9 @@ func TestWorker(t *testing.T) {
 	var job Job
 	if err := json.Unmarshal([]byte(js), &job); err != nil {
 		t.Fatalf("bad job: %v", err)
+	}
+	if job.WatchdogS > 0 {
+		watchdogLimit = job.WatchdogS
 	}
 	p := Lookup(job.Property)
 	if p == nil {
@@ -201,6 +208,13 @@ func explore(t *testing.T, p Property, job Job, out *outWriter) {
 		c := p.Generate(r.Derive("case"), job.Tier)
 		spec := schedFor(p, r.Derive("sched"), c, lenHint)
 		activeRun.desc = fmt.Sprintf("%s seed=%d idx=%d", job.Property, job.VerifSeed, idx)
+		if job.Current != "" {
+			cb, _ := json.Marshal(c)
+			fb, _ := json.Marshal(Failure{Property: job.Property, VerifSeed: job.VerifSeed, RunIndex: idx, RunSeed: runSeed, Tier: job.Tier,
+				Case: cb, Sched: spec, Violation: &simkit.Violation{Class: job.Property + "/hang",
+					Detail: "the run stopped making progress: a goroutine of the system is blocked for ever outside the simulated clock (self-deadlock on a lock) and an API call never returns"}})
+			os.WriteFile(job.Current, fb, 0o644)
+		}
 		res := runOne(t, p, c, spec, runSeed)
 		activeRun.desc = ""
 		sum.Runs++
